@@ -201,6 +201,46 @@ PROPS["C19"] = {
     "assumptions": [],
 }
 
+PROPS["C14"] = {
+    "level": "exploration",
+    "level_text": "held on N requests: every generated request description (9 standard + extra methods; URLs with ports, IPv6, IDN, percent-escapes, dot segments, queries, fragments; 0-12 headers with repeats in mixed case and multi-valued headers; empty / binary / up to 1 MiB / unicode / JSON / form / reader bodies incl. unknown length; explicit content type before or after the body; query structs) reached the shell as exactly one request whose method, URL, header multiset, content type and body equal an expected wire request computed independently (url crate, no http-types) - for both APIs, the typed core and the bridges.",
+    "level_note": "ASCII header names and values only (http-types rejects others at the builder, a documented restriction); base-url joins are unreachable through the public API (no way to configure the capability's client) and are not exercised",
+    "technique": "independently computed expected wire request vs. the emitted HttpRequest",
+    "rule": "random HttpJob x API x shell; non-trivial = request compared in full without mismatch; distinct = hash of (job, shell, api)",
+    "lanes": [caplab("httplab", 4, 16)],
+    "floors": {"quick": {"evaluations": 10000, "distinct_nontrivial": 8000, "requests_compared": 10000},
+               "thorough": {"evaluations": 1500000, "distinct_nontrivial": 390000}},
+    "must_cover": {"body_kinds": ["none", "bytes", "text", "json", "form", "reader(unknown length)", "reader(sized)"], "apis": ["Legacy", "Command"],
+                   "methods": ["GET", "HEAD", "POST", "PUT", "DELETE", "PATCH", "OPTIONS", "TRACE", "CONNECT"]},
+    "assumptions": [],
+}
+
+PROPS["C15"] = {
+    "level": "exploration",
+    "level_text": "held on N results except the listed known findings: every generated shell result (status axis: all 65 536 codes in thorough, all of 100-599 plus outliers in quick; header lists with repeats, mixed case, odd content types and charsets; bodies incl. BOMs, invalid sequences, text in the claimed charset; every shell error variant) produced exactly one outcome classified as the property says, with status, header multiset and body unchanged; string / JSON expectations equal an independent conforming decode (or are an error value when that fails); every returned String is valid UTF-8; no panic other than the listed ones.",
+    "level_note": "send_async hands over the raw response, so the 4xx/5xx classification is only demanded of send() and the command API; error messages are not compared",
+    "technique": "classification table + independent decoders + panic trap over generated shell results",
+    "rule": "random (status, headers, body | shell error) x expectation x API x shell, status axis enumerated; non-trivial = outcome compared in full; distinct = hash of the case",
+    "lanes": [caplab("httplab", 4, 16)],
+    "floors": {"quick": {"evaluations": 15000, "distinct_nontrivial": 9000, "outcomes_compared": 10000, "strings_validated_utf8": 500},
+               "thorough": {"evaluations": 2500000, "distinct_nontrivial": 390000}},
+    "must_cover": {"expectations": ["Bytes", "Text", "Json"], "apis": ["Command", "Legacy", "Legacy+send_async"]},
+    "assumptions": ["encoding_rs is the conforming decoder for non-UTF-8 charsets (the same library crux uses, called independently); UTF-8 without BOM is checked with std"],
+}
+
+PROPS["C16"] = {
+    "level": "exploration",
+    "level_text": "held on N stacks / walks except the listed known finding: for random middleware stacks (pass-through, short-circuiting, request-issuing, run-the-rest-twice; client-level through the crux_verif hook, per-request through the public builder) the recorded enter/exit marks nest exactly as client..., request..., shell and the shell is reached once per run of the rest of the chain; for random redirect graphs (absolute, rooted, relative, dot-segment locations, self loops, chains longer than the limit, missing and invalid Location, shell errors) the sequence of wire requests equals a reference walker written from the statement (probe count for a Location-less redirect left open), the final request carries the original body and method, and an error ends the walk with one error outcome.",
+    "level_note": "the harness plays the server; the count of probes for a redirect status without Location is not specified and both readings are accepted",
+    "technique": "mark-order monitor + reference redirect walker over random graphs",
+    "rule": "random middleware stack or redirect graph x attempt limit x API; non-trivial = stack / walk compared without mismatch; distinct = hash of (job, graph)",
+    "lanes": [caplab("httplab", 4, 16)],
+    "floors": {"quick": {"evaluations": 5000, "distinct_nontrivial": 3000, "middleware_stacks_compared": 1500, "redirect_walks_compared": 1500},
+               "thorough": {"evaluations": 800000, "distinct_nontrivial": 300000}},
+    "must_cover": {"apis": ["Legacy", "Command"]},
+    "assumptions": [],
+}
+
 ENGINES = [
     {"name": "cmdlab", "path": "harness/cmdlab", "serves_properties": ["C01", "C02", "C03", "C04", "C05", "C06", "C07", "C09"],
      "kind_free_text": "random program generator + executable reference model of command semantics + hosts (direct, stream-polled, nested, Core, legacy, bincode/JSON bridge) run in lock-step on the real crux code"},
@@ -212,5 +252,5 @@ ENGINES = [
 
 NOT_APPLICABLE = [
     {"property_id": p, "reason": "check not built yet in this session (see DESIGN.md); to be claimed once its engine exists"}
-    for p in ["C11", "C12", "C13", "C14", "C15", "C16", "C20"]
+    for p in ["C11", "C12", "C13", "C20"]
 ]
